@@ -55,6 +55,13 @@ FRAGS_ABS = {
     "ThingUF": "fragment ThingUF on Thing { ... on User { ...UserF } ... on Bot { ...BotF } }",
     "NodeInl2F": "fragment NodeInl2F on Node { id ... on User { ...UserF } }",
     "NamedOnNodeF": "fragment NamedOnNodeF on Node { id }",
+    # a three-deep chain of base-class fragments whose names sort top-down (dependants first)
+    "AlphaF": "fragment AlphaF on User { ...BetaF }",
+    "BetaF": "fragment BetaF on User { ...GammaF age }",
+    "GammaF": "fragment GammaF on User { id }",
+    # base-class fragments whose sub-fields are of abstract type (the generated nested class needs __typename from the server)
+    "RelF": "fragment RelF on User { related { id } }",
+    "FavF": "fragment FavF on User { fav { ... on Dog { barks } } name }",
 }
 
 # selection items usable inside a selection set whose declared type is abstract (Node / Named / Thing) or User
@@ -90,7 +97,7 @@ MUST_NODE = [("id", "... on Bot { model }", "...UserF"), ("... on User { name ag
              ("...NodeF", "...UserF"), ("...NodeF", "... on Bot { model }"), ("...NamedF", "...BotF", "id"), ("...NodeInl2F", "...BotF"),
              ("id", "... on Aged { age }"), ("... on Aged { age }", "... on Bot { model }")]
 MUST_THING = [("... on Bot { model }", "...UserF"), ("... on User { name age }", "...DogF"), ("...ThingUF", "...DogF"), ("... on Named { name }", "...DogF"), ("... on Aged { age }", "...DogF")]
-MUST_USER = [("...UserF", "...NodeF", "id"), ("...UserDeepF", "pet { barks }"), ("...NestF", "...NamedF"), ("related { ... on Bot { model } }", "related { id }")]
+MUST_USER = [("...RelF",), ("...FavF", "id"), ("...AlphaF",), ("...AlphaF", "name"), ("...UserF", "...NodeF", "id"), ("...UserDeepF", "pet { barks }"), ("...NestF", "...NamedF"), ("related { ... on Bot { model } }", "related { id }")]
 
 
 def with_directive(item: str, d: str) -> str:
@@ -261,6 +268,8 @@ FRAG_POOL = {
     "AF": "fragment AF on User { bestFriend { ...UB } }",
     "AG": "fragment AG on User { friends { ...ZU pet { ...ZD } } }",
     "ZD": "fragment ZD on Dog { barks }",
+    "UN": "fragment UN on User { ...NA name }",
+    "UM": "fragment UM on User { age ...MA ...TA }",
 }
 FRAG_OPS = [
     "user { ...UA }", "user { ...UB }", "me { ...UC }", "user { ...UD }", "users { ...UE }", "node { ...NA }", "node { ...NB }",
@@ -269,6 +278,7 @@ FRAG_OPS = [
     "me { ...ZU ...UA }", "thing { ... on User { ...UE } }", "user { ...UA @include(if: true) }", "user { ...AF }", "me { ...AG }", "users { ...AF ...AG }",
     "node { id ... on Bot { model } ...UE }", "nodesOpt { ... on Dog { barks } ...UB }", "thing { ... on Bot { model } ...UC }", "named { ... on Bot { model } ...UE ...MA }",
     "user { ... on Node { ...NA } }", "me { name ... on Named { ...MA } ... on User { ...ZU } }", "node { ... on Node { ...NA } ... on User { ...UB } }",
+    "user { ...UN }", "me { id ...UN }", "users { ...UM }", "node { ... on User { ...UN } }",
 ]
 
 
@@ -374,6 +384,11 @@ def misc_jobs() -> List[dict]:
     out = []
     for snake in (True, False):
         out.append({"schema": S_MISC, "queries": OPS_MISC, "config": {"convert_to_snake_case": snake}, "ops": None})
+    # the other client flavours (the models do not depend on them, the generated methods - sent document, validated class - do)
+    ops_no_sub = "\n".join(ln for ln in OPS_MISC.strip().split("\n") if not ln.startswith("subscription"))
+    out.append({"schema": S_MISC, "queries": ops_no_sub, "config": {"async_client": False}, "ops": None})
+    out.append({"schema": S_MISC, "queries": OPS_MISC, "config": {"opentelemetry_client": True}, "ops": None})
+    out.append({"schema": S_MISC, "queries": ops_no_sub, "config": {"async_client": False, "opentelemetry_client": True, "convert_to_snake_case": False}, "ops": None})
     # a configured custom scalar reached directly and through base-class fragments: only its declared Python type is judged
     # (what a server may send for a custom scalar is not defined by the schema), hence this job is used by C05 only
     out.append({"schema": S_MISC, "queries": OPS_MISC_SCALAR, "config": {"scalars": {"Stamp": {"type": "str"}}}, "ops": None, "only_for": "C05", "modes_override": ["image"]})
